@@ -57,10 +57,12 @@ structure POut where
   origins : OMap := []
 deriving Repr, Inhabited
 
-/-- `PreprocessedText::push(s, origin)` -/
+/-- `PreprocessedText::push(s, origin)` (an empty string records nothing) -/
 def POut.push (t : POut) (s : List Nat) (src : Option (List Nat × Range)) : POut :=
-  let r : Range := ⟨t.text.length, t.text.length + s.length⟩
-  { text := t.text ++ s, origins := t.origins.insert r ⟨r, src⟩ }
+  if s.isEmpty then t
+  else
+    let r : Range := ⟨t.text.length, t.text.length + s.length⟩
+    { text := t.text ++ s, origins := t.origins.insert r ⟨r, src⟩ }
 
 /-- `PreprocessedText::merge(other)`: re-base every entry of `other` (in key order) and insert it -/
 def POut.merge (t : POut) (o : POut) : POut :=
